@@ -137,10 +137,11 @@ def withAppendedExplicit (pt : PT) (appended : List PT) : PT :=
   if appended.isEmpty then pt else .seq none (pt :: appended) [] []
 
 /-- `with_repetition` (`RepetitionPulseTemplate` overrides it: an unnamed repetition without measurement
-declarations — PF-10 repaired — is merged into one repetition with the product count) -/
+declarations — PF-10 repaired — is merged into one repetition whose count is the product of the two counts, each
+clamped to 0 from below — PF-C05d repaired: a negative count plays nothing) -/
 def withRepetition (pt : PT) (count : Expr) : PT :=
   match pt with
-  | .rep none body c [] cons => .rep none body (.mul c count) [] cons
+  | .rep none body c [] cons => .rep none body (.mul (.max (.lit 0) c) (.max (.lit 0) count)) [] cons
   | p => .rep none p count [] []
 
 def withRepetitionExplicit (pt : PT) (count : Expr) : PT := .rep none pt count [] []
